@@ -64,9 +64,9 @@ use crate::link::EndpointAddress;
 use crate::master::task::MasterTask;
 use crate::master::{
     AssociationConfig, AssociationHandle, AssociationHandler, AssociationInformation, Classes,
-    EventClasses,
-    HeaderInfo, Headers, MasterChannel, MasterChannelConfig, MasterChannelType, ReadHandler,
-    ReadRequest, ReadType, TaskError, TaskType, TimeSyncError, TimeSyncProcedure, WriteError,
+    EventClasses, HeaderInfo, Headers, MasterChannel, MasterChannelConfig, MasterChannelType,
+    ReadHandler, ReadRequest, ReadType, TaskError, TaskType, TimeSyncError, TimeSyncProcedure,
+    WriteError,
 };
 use crate::util::phys::{PhysAddr, PhysLayer};
 use crate::util::session::{Enabled, RunError, StopReason};
@@ -97,10 +97,10 @@ impl Shared {
 // ---- watchdog ---------------------------------------------------------------------------------
 
 struct Watch {
-    beat: AtomicU64,                    // wall-clock ms since WATCH_START of the last progress
-    running: AtomicBool,                // a script of this engine is executing
+    beat: AtomicU64,     // wall-clock ms since WATCH_START of the last progress
+    running: AtomicBool, // a script of this engine is executing
     current: Mutex<Option<(String, Arc<Shared>)>>,
-    finished: Mutex<String>,            // traces of the msched scripts already finished
+    finished: Mutex<String>, // traces of the msched scripts already finished
 }
 
 static WATCH: std::sync::OnceLock<Arc<Watch>> = std::sync::OnceLock::new();
@@ -288,8 +288,9 @@ impl ReadHandler for Reads {
     }
     fn end_fragment(&mut self, read_type: ReadType, _header: ResponseHeader) -> MaybeAsync<()> {
         let (assoc, n) = (self.assoc, self.count);
-        self.shared
-            .push(0, |t| format!("cb {} {} {} {}", t, assoc, read_type_name(read_type), n));
+        self.shared.push(0, |t| {
+            format!("cb {} {} {} {}", t, assoc, read_type_name(read_type), n)
+        });
         MaybeAsync::ready(())
     }
     fn handle_binary_input(
@@ -313,7 +314,11 @@ impl ReadHandler for Reads {
     ) {
         self.add(iter)
     }
-    fn handle_counter(&mut self, _info: HeaderInfo, iter: &mut dyn Iterator<Item = (Counter, u16)>) {
+    fn handle_counter(
+        &mut self,
+        _info: HeaderInfo,
+        iter: &mut dyn Iterator<Item = (Counter, u16)>,
+    ) {
         self.add(iter)
     }
     fn handle_frozen_counter(
@@ -359,25 +364,51 @@ impl AssociationInformation for Info {
     fn task_start(&mut self, task_type: TaskType, fc: FunctionCode, seq: Sequence) {
         let a = self.assoc;
         self.shared.push(0, |t| {
-            format!("info {} {} start {} {} {}", t, a, task_type_name(task_type), fc.as_u8(), seq.value())
+            format!(
+                "info {} {} start {} {} {}",
+                t,
+                a,
+                task_type_name(task_type),
+                fc.as_u8(),
+                seq.value()
+            )
         });
     }
     fn task_success(&mut self, task_type: TaskType, fc: FunctionCode, seq: Sequence) {
         let a = self.assoc;
         self.shared.push(0, |t| {
-            format!("info {} {} ok {} {} {}", t, a, task_type_name(task_type), fc.as_u8(), seq.value())
+            format!(
+                "info {} {} ok {} {} {}",
+                t,
+                a,
+                task_type_name(task_type),
+                fc.as_u8(),
+                seq.value()
+            )
         });
     }
     fn task_fail(&mut self, task_type: TaskType, error: TaskError) {
         let a = self.assoc;
         self.shared.push(0, |t| {
-            format!("info {} {} fail {} {}", t, a, task_type_name(task_type), task_error_name(error))
+            format!(
+                "info {} {} fail {} {}",
+                t,
+                a,
+                task_type_name(task_type),
+                task_error_name(error)
+            )
         });
     }
     fn unsolicited_response(&mut self, is_duplicate: bool, seq: Sequence) {
         let a = self.assoc;
         self.shared.push(0, |t| {
-            format!("info {} {} unsol {} {}", t, a, is_duplicate as u8, seq.value())
+            format!(
+                "info {} {} unsol {} {}",
+                t,
+                a,
+                is_duplicate as u8,
+                seq.value()
+            )
         });
     }
 }
@@ -412,7 +443,10 @@ impl tracing::Subscriber for LinkStatusWatcher {
         let mut v = MessageVisitor(String::new());
         event.record(&mut v);
         if let Some(rest) = v.0.strip_prefix("sending link status request (for ") {
-            let addr: u64 = rest.trim_end_matches(')').parse().expect("address in link status message");
+            let addr: u64 = rest
+                .trim_end_matches(')')
+                .parse()
+                .expect("address in link status message");
             self.shared
                 .push(0, |t| format!("txlink {} {}", t, addr.wrapping_sub(1024)));
         }
@@ -489,7 +523,10 @@ fn run_backoff(op: &[String], obs: &mut Vec<String>) {
 }
 
 fn assoc_config(spec: &str) -> AssociationConfig {
-    let f: Vec<u64> = spec.split(':').map(|x| x.parse().expect("number in association spec")).collect();
+    let f: Vec<u64> = spec
+        .split(':')
+        .map(|x| x.parse().expect("number in association spec"))
+        .collect();
     assert!(f.len() == 11, "association spec needs 11 fields");
     let mut c = AssociationConfig::quiet();
     c.disable_unsol_classes = event_classes(f[0]);
@@ -500,8 +537,13 @@ fn assoc_config(spec: &str) -> AssociationConfig {
     c.event_scan_on_events_available = event_classes(f[5]);
     c.auto_tasks_retry_strategy =
         RetryStrategy::new(Duration::from_millis(f[6]), Duration::from_millis(f[7]));
-    c.keep_alive_timeout = if f[8] == 0 { None } else { Some(Duration::from_millis(f[8])) };
-    c.response_timeout = Timeout::from_duration(Duration::from_millis(f[9])).expect("response timeout in range");
+    c.keep_alive_timeout = if f[8] == 0 {
+        None
+    } else {
+        Some(Duration::from_millis(f[8]))
+    };
+    c.response_timeout =
+        Timeout::from_duration(Duration::from_millis(f[9])).expect("response timeout in range");
     c.max_queued_user_requests = f[10] as usize;
     c
 }
@@ -645,9 +687,18 @@ pub(crate) async fn run_msched(script: &Script, obs: &mut Vec<String>) {
             .add_association(
                 EndpointAddress::try_new(1024 + i as u16).unwrap(),
                 config,
-                Box::new(Reads { shared: shared.clone(), assoc: i, count: 0 }),
-                Box::new(Clock { shared: shared.clone() }),
-                Box::new(Info { shared: shared.clone(), assoc: i }),
+                Box::new(Reads {
+                    shared: shared.clone(),
+                    assoc: i,
+                    count: 0,
+                }),
+                Box::new(Clock {
+                    shared: shared.clone(),
+                }),
+                Box::new(Info {
+                    shared: shared.clone(),
+                    assoc: i,
+                }),
             )
             .await
             .expect("add_association");
@@ -693,7 +744,10 @@ pub(crate) async fn run_msched(script: &Script, obs: &mut Vec<String>) {
                 let period: u64 = op[2].parse().unwrap();
                 let mask: u64 = op[3].parse().unwrap();
                 let h = assocs[a]
-                    .add_poll(ReadRequest::class_scan(classes(mask)), Duration::from_millis(period))
+                    .add_poll(
+                        ReadRequest::class_scan(classes(mask)),
+                        Duration::from_millis(period),
+                    )
                     .await
                     .expect("add_poll");
                 polls[a].push(h);
@@ -720,7 +774,10 @@ pub(crate) async fn run_msched(script: &Script, obs: &mut Vec<String>) {
                             .map_err(task_error_name),
                         "link" => h.check_link_status().await.map_err(task_error_name),
                         "empty" => h
-                            .send_and_expect_empty_response(FunctionCode::ImmediateFreeze, Headers::new())
+                            .send_and_expect_empty_response(
+                                FunctionCode::ImmediateFreeze,
+                                Headers::new(),
+                            )
                             .await
                             .map_err(write_error_name),
                         "tsync" => h
